@@ -1,15 +1,19 @@
 #!/bin/bash
-# Applies a seeded change to /repo, runs the quick checks of the given properties, undoes the change.
+# Applies a seeded change to a scratch worktree of /repo's HEAD, runs the quick (or SEED_TIER) checks of the
+# given properties against that tree (VERIF_REPO), removes the worktree. /repo itself is not touched, so
+# background runs are not disturbed.
 #   scripts/seedcheck.sh <seeded-dir> <prop> [<prop>...]
 # Prints one line per property: CAUGHT (exit 1 with a VIOLATION line), MISSED (exit 0) or TROUBLE (exit 2).
 set -u
 D="$(cd "$1" && pwd)"; shift
 cd /verif
-git -C /repo diff --quiet || { echo "seedcheck: /repo has local changes, refusing"; exit 2; }
-git -C /repo apply "$D/patch.diff" || { echo "seedcheck: patch does not apply: $D"; exit 2; }
-trap 'git -C /repo checkout -- . ; git -C /repo clean -fdq' EXIT
+WT=$(mktemp -d /dev/shm/seedwt-XXXXXX)
+rmdir "$WT"
+git -C /repo worktree add -q "$WT" HEAD || { echo "seedcheck: cannot create worktree"; exit 2; }
+trap 'git -C /repo worktree remove --force "$WT" >/dev/null 2>&1; git -C /repo worktree prune' EXIT
+git -C "$WT" apply "$D/patch.diff" || { echo "seedcheck: patch does not apply: $D"; exit 2; }
 for P in "$@"; do
-  out=$(VERIF_TIER="${SEED_TIER:-quick}" ./check.sh "$P" "${SEED_TIER:-quick}" 2>&1); rc=$?
+  out=$(VERIF_REPO="$WT" VERIF_TIER="${SEED_TIER:-quick}" ./check.sh "$P" "${SEED_TIER:-quick}" 2>&1); rc=$?
   nv=$(echo "$out" | grep -c '^VIOLATION')
   case $rc in
     1) echo "CAUGHT  $(basename $D) $P violations=$nv $(echo "$out" | grep -m1 '^  rule=' | cut -c1-160)";;
